@@ -202,7 +202,7 @@ func (c07) Case(c *core.Ctx) {
 	if e3 != nil || ex != (len(got) > 0) {
 		c.Violate("c07-exists", "Exists is not 'ValuesForPath non-empty'", core.D{"map": jv.Show(root), "path": path, "exists": ex, "n": len(got), "err": fmt.Sprint(e3)})
 	}
-	if r.Intn(4) == 0 {
+	if r.Intn(4) == 0 && jsonSafeKeys(root) {
 		jb, jerr := json.Marshal(root)
 		if jerr == nil {
 			jg, je := j2x.JsonValuesForKeyPath(jb, path)
